@@ -101,6 +101,7 @@ type vfC04SCfg struct {
 	gate    bool // the parser's input is released entry by entry (decision `p`): the pipe a worker looks at after a
 	// cancellation is EMPTY or NOT as the schedule says — both outcomes of its `select` are forced, not awaited
 	cluster bool // bidirectional replay onto a cluster target: the global lane replays the AUX lua script on every primary
+	emptyKey bool // one entry's key is "" (a key like any other: routed by its hash)
 }
 
 // vfC04Gated: an io.Reader that has the bytes the controller released
@@ -122,9 +123,12 @@ func (g *vfC04Gated) Read(p []byte) (int, error) {
 	return n, nil
 }
 
+// vfC04SLuaKey names the AUX lua script in the list of visible entries ("" is a legal key of a keyed entry)
+const vfC04SLuaKey = "\x00<aux lua>"
+
 // vfC04SEntries: what the enumeration can SEE of the entries the real loader produces: keyed entries (by their key) and
 // the AUX lua script; other AUX fields are skipped by the replay without a request (buildBisyncRdbGlobalUnit) — they are
-// not part of the traced system. Returns per visible entry: key ("" = the lua script), worker (n = global lane), global flag.
+// not part of the traced system. Returns per visible entry: key (vfC04SLuaKey = the lua script), worker (n = global lane), global flag.
 func vfC04SEntries(data []byte, par int, cluster bool, kvs []vfc20.KV) (keys []string, worker []int, glob []int) {
 	bins, err := vfc20.Load(data, 0, "7.0.0")
 	if err != nil {
@@ -141,7 +145,7 @@ func vfC04SEntries(data []byte, par int, cluster bool, kvs []vfc20.KV) (keys []s
 			worker = append(worker, int(util.FnvHash(e.Key)%uint32(par)))
 			glob = append(glob, 0)
 		case cluster && e.ObjectParser != nil && e.ObjectParser.Type() == rdb.RdbObjectAux && string(e.Key) == "lua":
-			keys = append(keys, "")
+			keys = append(keys, vfC04SLuaKey)
 			worker = append(worker, par)
 			glob = append(glob, 1)
 		}
@@ -171,7 +175,7 @@ func vfC04SchedRun(t *testing.T, f vfC04File, keys []string, worker []int, cf vf
 	keyIdx := map[string]int{}
 	luaIdx := -1
 	for j, k := range keys {
-		if k == "" {
+		if k == vfC04SLuaKey {
 			luaIdx = j
 		} else {
 			keyIdx[k] = j
@@ -493,6 +497,9 @@ func vfC04Session5(t *testing.T, s *vfutil.Session, mark func(string), phase fun
 		// cluster target, bidirectional: the global lane (worker n) replays the AUX lua script on every primary
 		{par: 2, ps: 1024, want: []int{0, 1}, bisync: true, cluster: true},
 		{par: 1, ps: 2, want: []int{0, 0}, bisync: true, cluster: true, gate: true},
+		// dimension audit: an entry with the EMPTY key among the others (8 workers: more than entries; pipe of 1)
+		{par: 2, ps: 1, want: []int{int(util.FnvHash(nil) % 2), 1, 0}, emptyKey: true},
+		{par: 8, ps: 1, want: []int{int(util.FnvHash(nil) % 8), 3, 6}, emptyKey: true, restore: true},
 	}
 	if vfutil.Thorough() {
 		cfgs = append(cfgs, vfC04SCfg{par: 3, ps: 1, want: []int{2, 1, 0}, bisync: true}, vfC04SCfg{par: 2, ps: 2, want: []int{0, 1, 0}, restore: true},
@@ -509,6 +516,10 @@ func vfC04Session5(t *testing.T, s *vfutil.Session, mark func(string), phase fun
 		}
 		if cf.gate {
 			f.Name += "_gated"
+		}
+		if cf.emptyKey {
+			f.KVs[0].Key = []byte{}
+			f.Name += "_emptykey"
 		}
 		data := f.bytes()
 		keys, worker, glob := vfC04SEntries(data, cf.par, cf.cluster, f.KVs)
@@ -659,6 +670,75 @@ func vfC04Session5(t *testing.T, s *vfutil.Session, mark func(string), phase fun
 			s.Count("sched_trees_exhausted")
 		} else {
 			s.Count("sched_trees_cut_by_budget")
+		}
+	}
+
+	phase("sd")
+	// ------------------------------------------------ sd. dimension audit: degenerate-but-legal snapshots through the whole pipeline
+	{
+		type dcase struct {
+			name     string
+			f        vfC04File
+			par, ps  int
+			bis      bool
+			complete bool // the intact file must be replayed, recorded, every key there
+		}
+		one := []vfc20.KV{{DB: 0, Key: []byte(""), Type: 0, Str: []byte("")}}
+		mixed := vfC04Files()[0]
+		nocrc := vfC04File{Name: "mixed-nocrc", KVs: mixed.KVs, Opts: vfc20.Opts{Aux: true, ResizeDB: true, NoCRC: true}}
+		for di, d := range []dcase{
+			{"empty-snapshot", vfC04File{Name: "empty"}, 2, 1024, false, true},
+			{"empty-snapshot-nocrc", vfC04File{Name: "empty-nocrc", Opts: vfc20.Opts{NoCRC: true}}, 1, 1, true, true},
+			{"empty-key-empty-value", vfC04File{Name: "emptykv", KVs: one}, 4, 1, false, true},
+			{"empty-key-empty-value-nocrc-bisync", vfC04File{Name: "emptykv-nocrc", KVs: one, Opts: vfc20.Opts{NoCRC: true}}, 1, 1024, true, true},
+			{"checksum-disabled", nocrc, 3, 2, false, true},
+		} {
+			data := d.f.bytes()
+			o := vfC04DefaultOpts()
+			o.Parallel, o.PipeSize, o.Bisync, o.Restore = d.par, d.ps, d.bis, di%2 == 1
+			mark("degenerate " + d.name)
+			r := vfC04Send(t, d.f.KVs, data, int64(len(data)), o)
+			vfC04Monitor(s, "degenerate-"+d.name, d.f.Name, data, o, r)
+			s.Count("degenerate_" + d.name)
+			if r.Err != nil || !r.Cp || !r.AllApplied {
+				s.Violate("clean-run-failed", fmt.Sprintf("%s, intact: err=%v cp=%v all=%v missing=%q", d.name, r.Err, r.Cp, r.AllApplied, r.Missing),
+					map[string]interface{}{"scenario": "degenerate", "file": d.f.Name, "rdb": vfutil.Hex(data), "opts": o.String()})
+				continue
+			}
+			s.Op(vfC04FanOp(data, o, "clean"), vfC04ResTok(r))
+			// every truncation of it — in particular 0 bytes, the 9 header bytes alone, the EOF opcode without / with half a footer,
+			// and for the checksum-disabled files every cut (the zero footer refuses nothing but a cut) — parser and pipeline
+			for k := 0; k < len(data); k++ {
+				if tok := vfC04ParseTok(data[:k]); strings.HasPrefix(tok, "d") {
+					s.Count("viol_truncation-accepted")
+					s.Violate("truncation-accepted", fmt.Sprintf("%s cut at %d of %d bytes parses to Done (%s)", d.name, k, len(data), tok),
+						map[string]interface{}{"scenario": "trunc", "file": d.f.Name, "rdb": vfutil.Hex(data[:k])})
+				}
+				if len(data) > 60 && k > 12 && k < len(data)-12 && (k+di)%5 != 0 {
+					continue // the long file: parser at every cut, pipeline at every 5th + both ends
+				}
+				ot := o
+				ot.Parallel = 1 + k%3
+				rt := vfC04Send(t, d.f.KVs, data[:k], int64(len(data)), ot)
+				vfC04Monitor(s, "degenerate-truncated-"+d.name, d.f.Name, data[:k], ot, rt)
+				if rt.Err == nil {
+					s.Count("viol_truncation-replayed-ok")
+					s.Violate("truncation-replayed-ok", fmt.Sprintf("%s cut at %d of %d bytes: SendRdb returned nil (checkpoint=%v)", d.name, k, len(data), rt.Cp),
+						map[string]interface{}{"scenario": "degenerate-truncated", "file": d.f.Name, "rdb": vfutil.Hex(data[:k]), "opts": ot.String()})
+				}
+				switch k {
+				case 0:
+					s.Count("degenerate_file_of_0_bytes")
+				case 9:
+					s.Count("degenerate_file_of_exactly_the_9_header_bytes")
+				case 10:
+					s.Count("degenerate_file_of_10_bytes")
+				}
+				if k == len(data)-8 {
+					s.Count("degenerate_eof_opcode_without_footer")
+				}
+				s.Count("degenerate_truncations")
+			}
 		}
 	}
 
